@@ -412,7 +412,9 @@ func (c *PathCtx) doAssert(fr *frame, cond *Term, id string) {
 		}
 		rest = tAnd(rest, tNot(k.pred))
 	}
+	c.deciding = true
 	r := c.checkSat(rest)
+	c.deciding = false
 	switch {
 	case r == "unsat":
 		c.res.Discharged++
